@@ -8,13 +8,6 @@ import (
 	"github.com/EliCDavis/vector/vector3"
 )
 
-func triMesh(name string) modeling.Mesh {
-	return SymMesh(name, modeling.TriangleTopology, zz.Bound("V"), zz.Bound("T"), 4)
-}
-func pointMesh(name string) modeling.Mesh {
-	return SymMesh(name, modeling.PointTopology, zz.Bound("V"), zz.Bound("V"), 4)
-}
-
 func ZZ_C02_Unweld() {
 	m := triMesh("m")
 	zz.Reach("input")
@@ -94,9 +87,9 @@ func ZZ_C02_CropPoints() {
 	m := pointMesh("m")
 	zz.Assume(m.HasFloat3Attribute(modeling.PositionAttribute))
 	zz.Reach("input")
-	lo, hi := zz.Float64("box.lo"), zz.Float64("box.hi")
-	zz.Assume(lo < hi)
-	box := geometry.NewAABBFromPoints(vector3.New(lo, -1, -1), vector3.New(hi, 1, 1))
+	// a concrete box and symbolic coordinates: which points fall inside is decided by the solver, while the
+	// box's own centre/extents arithmetic stays concrete (64-bit fp.div is out of the solvers' reach)
+	box := geometry.NewAABBFromPoints(vector3.New(-1., -1., -1.), vector3.New(1., 1., 1.))
 	WF(meshops.CropFloat3Attribute(m, modeling.PositionAttribute, box), "CropFloat3Attribute")
 }
 
